@@ -2,6 +2,7 @@ CONSTANTS
   Good <- MCGoodSix
   Bad <- MCBadSix
   MaxOps = 6
+  WithGet = FALSE
 INIT Init
 NEXT Next
 INVARIANTS BatchEq Idempotent NamesUnique Export
